@@ -41,10 +41,18 @@ def run(ctx):
     nspec = ctx.n(24, 900)
     maxd = {}
     for i in range(nspec):
-        spec, info = gen_spec.gen_spec(rng, max_channels=2, max_samples=2, max_bins=2)
+        binwise_only = (i % 6 == 3)
+        if binwise_only:
+            # bin-wise modifiers only (shape factor, uncorrelated shape, MC-statistical), no POI: every parameter is reached through gather
+            # fields only — a gradient that the autodiff engines may deliver in sparse form; evaluated on all three engines
+            spec, info = gen_spec.gen_spec(rng, max_channels=2, max_samples=2, max_bins=2, want={'shapesys'} if i % 12 == 3 else {'staterror'},
+                                           avoid=set(gen_spec.SYS_POOL) | {'lumi', 'normfactor'})
+        else:
+            spec, info = gen_spec.gen_spec(rng, max_channels=2, max_samples=2, max_bins=2)
+        poi = None if binwise_only else 'mu'
         histo = rng.choice(['0', '2', '4p']); norm = rng.choice(['1', '4'])
         pyhf.set_backend('numpy')
-        err, m = enga.impl_model(pyhf, spec, enga.impl_kwargs(histo, norm))
+        err, m = enga.impl_model(pyhf, spec, enga.impl_kwargs(histo, norm, poi=poi))
         if m is None: continue
         cfg = enga.impl_config(m)
         for _try in range(30):
@@ -58,7 +66,7 @@ def run(ctx):
             k = rng.choice(alpha_idx); q = list(p); q[k] = rng.choice([1.0, -1.0, 1.0, -1.0, 0.0])
             if float(np.min(np.asarray(m.expected_actualdata(np.asarray(q))))) > 0.5: p = q
         main, aux = gen_data(rng, m, p); data = main + aux
-        st = enga.settings(histo, norm)
+        st = enga.settings(histo, norm, poi=poi)
         g_model = model_grad(lean, spec, st, p, data)
         ctx.count()
         if g_model is None:
@@ -68,7 +76,8 @@ def run(ctx):
         fixed_vals = [(k, p[k]) for k, f in enumerate(fixed) if f]
         var_idx = [k for k, f in enumerate(fixed) if not f]
         at_kink = [k for k, (x, nm) in enumerate(zip(p, cfg['par_names'])) if x == 0.0]
-        bk = backends[(i + ctx.seed) % 3] if not ctx.thorough else None
+        bk = backends[(i + ctx.seed) % 3] if not (ctx.thorough or binwise_only) else None
+        ctx.tally('spec_kind', 'binwise-only/no-poi' if binwise_only else 'general')
         for b in ([bk] if bk else backends):
             pyhf.set_backend(b)
             tl = pyhf.tensorlib
